@@ -13,7 +13,7 @@ from .. import sp
 ID = "C08"
 META = {
     "technique": "runtime monitoring: icontract class invariant on Library + lock-step executable list model + atomicity monitor on ValueError, over bounded-exhaustive and random call histories",
-    "level_text": "All histories of add/remove/replace calls (39 call shapes over a 10-block universe with colliding keys) to depth k and random histories of depth 30 are executed on the real Library; after every call the icontract invariant checks the view equations and the partition, the list model checks identity/order/position/wrappers, and every call that raised ValueError must leave the observable state (incl. the order of `strings`) unchanged.",
+    "level_text": "All histories of add/remove/replace calls (39 call shapes over a 12-block universe (incl. instances of user-defined Entry/String subclasses) with colliding keys) to depth k and random histories of depth 30 are executed on the real Library; after every call the icontract invariant checks the view equations and the partition, the list model checks identity/order/position/wrappers, and every call that raised ValueError must leave the observable state (incl. the order of `strings`) unchanged.",
     "level_note": "remove([..]) is a sequence of single removes; universe blocks are pairwise unequal so that list.remove-by-equality is unambiguous",
 }
 RULE = ("case = history (list of calls) over the universe {e(a), e'(a), e(b), field-less e(c), e'(c), s(a), s'(a), s(b), preamble, comment}; all histories to depth k plus "
@@ -22,13 +22,13 @@ RULE = ("case = history (list of calls) over the universe {e(a), e'(a), e(b), fi
 ASSUMPTIONS = ["block keys are not mutated while held", "K1 (add(..., fail_on_duplicate_key=True) raises after inserting) is a listed known finding"]
 MIN = {"library_invariant": (200000, 2000000), "model_step": (100000, 1000000), "atomicity_on_ValueError": (20000, 200000)}
 
-NAMES = ["ea", "e2a", "eb", "e0c", "e2c", "sa", "s2a", "sb", "p", "c"]
-REPLACE_PAIRS = [("ea", "e2a"), ("ea", "eb"), ("eb", "e2a"), ("sa", "s2a"), ("sa", "ea"), ("e2a", "ea"), ("p", "c"), ("c", "eb"), ("eb", "sa"), ("sa", "sb"), ("sb", "s2a"), ("eb", "e2c"), ("p", "e0c")]
+NAMES = ["ea", "e2a", "exa", "eb", "e0c", "e2c", "sa", "s2a", "sxa", "sb", "p", "c"]
+REPLACE_PAIRS = [("ea", "e2a"), ("ea", "eb"), ("eb", "e2a"), ("sa", "s2a"), ("sa", "ea"), ("e2a", "ea"), ("p", "c"), ("c", "eb"), ("eb", "sa"), ("sa", "sb"), ("sb", "s2a"), ("eb", "e2c"), ("p", "e0c"), ("eb", "exa"), ("sb", "sxa")]
 
 
 def all_ops():
     ops = [["add", n] for n in NAMES]
-    ops += [["addf", n] for n in ("e2a", "s2a", "eb")]
+    ops += [["addf", n] for n in ("e2a", "s2a", "eb", "exa")]
     ops += [["addl", ["ea", "e2a"]], ["addl", ["sa", "p"]]]
     ops += [["rm", n] for n in NAMES]
     ops += [["rp", a, b, f] for a, b in REPLACE_PAIRS for f in (True, False)]
@@ -59,11 +59,31 @@ def cases(tier, seed, shard, nshards):
         yield {"h": [r.choice(OPS) for _ in range(30)]}
 
 
+_SUB = []
+
+
+def _subclasses():
+    """User-defined block classes (the documented way to extend the model): they are Entry / String blocks."""
+    if not _SUB:
+        from bibtexparser import model as M
+
+        class AnnotatedEntry(M.Entry):
+            pass
+
+        class MacroString(M.String):
+            pass
+
+        _SUB.extend([AnnotatedEntry, MacroString])
+    return _SUB
+
+
 def universe():
     from bibtexparser import model as M
     return {
         "ea": M.Entry("article", "a", [M.Field("t", "{1}")], raw="@article{a, t = {1}}", start_line=0),
         "e2a": M.Entry("book", "a", [M.Field("t", "{2}")], raw="@book{a, t = {2}}", start_line=1),
+        "exa": _subclasses()[0]("online", "a", [M.Field("t", "{5}")], raw="@online{a, t = {5}}", start_line=10),
+        "sxa": _subclasses()[1]("a", "{w}", raw="@string{a = {w}}", start_line=11),
         "eb": M.Entry("article", "b", [M.Field("t", "{3}")], raw="@article{b, t = {3}}", start_line=2),
         "e0c": M.Entry("misc", "c", [], raw="@misc{c}", start_line=8),
         "e2c": M.Entry("book", "c", [M.Field("t", "{4}")], raw="@book{c, t = {4}}", start_line=9),
